@@ -1334,6 +1334,17 @@ def _multi_db(tree: ast.Module) -> dict:
             inner = _is_deepcopy(val)
             if inner is not None and _is(inner, f'{dv}.get_ent({cn})'):
                 ok = True
+    if not ok and len(lb) == 1 and isinstance(lb[0], ast.If) and not lb[0].orelse:
+        # the membership test instead of the exception: `if classname.casefold() in dbase.get_classnames(): return deepcopy(dbase.get_ent(classname))`
+        # (get_ent raises KeyError exactly for names that are not keys of ent_map; the model does not distinguish the two)
+        m = _norm_membership(_deref(lb[0].test, _single_assignments(ed)))
+        env2 = _single_assignments(ed)
+        sts = [x for x in lb[0].body if not (isinstance(x, ast.Assign) and len(x.targets) == 1 and isinstance(x.targets[0], ast.Name)
+                                             and x.targets[0].id in env2)]
+        if (m and m[0] == 'in' and _is(m[1], f'{cn}.casefold()') and (_is(m[2], f'{dv}.get_classnames()') or _is(m[2], f'{dv}.ent_map'))
+                and len(sts) == 1 and isinstance(sts[0], ast.Return) and sts[0].value is not None):
+            inner = _is_deepcopy(_deref(sts[0].value, env2))
+            ok = inner is not None and _is(inner, f'{dv}.get_ent({cn})')
     if not ok:
         raise TranslateError('EntityDef.engine_def: loop body is not `try: return deepcopy(dbase.get_ent(classname)) except KeyError: pass`: '
                              + ast.unparse(loop)[:200])
